@@ -1026,13 +1026,20 @@ where
     #[inline]
     fn go<M: Mode>(&self, inp: &mut InputRef<'src, '_, I, E>) -> PResult<M, [O; N]> {
         let mut arr: [MaybeUninit<_>; N] = MaybeUninitExt::uninit_array();
-        self.parsers
-            .iter()
-            .zip(arr.iter_mut())
-            .try_for_each(|(p, res)| {
-                res.write(p.go::<M>(inp)?);
-                Ok(())
-            })?;
+        for idx in 0..N {
+            match self.parsers[idx].go::<M>(inp) {
+                Ok(out) => {
+                    arr[idx].write(out);
+                }
+                Err(()) => {
+                    // SAFETY: exactly the first `idx` elements have been initialized above
+                    arr[..idx]
+                        .iter_mut()
+                        .for_each(|o| unsafe { o.assume_init_drop() });
+                    return Err(());
+                }
+            }
+        }
         // SAFETY: We guarantee that all parers succeeded and as such all items have been initialized
         //         if we reach this point
         Ok(M::array(unsafe { MaybeUninitExt::array_assume_init(arr) }))
